@@ -76,13 +76,15 @@ CONSTANTS
   WithGC = {WithGC}
   FileMax = {FileMax}
   BodyMaxBlk = {BodyMaxBlk}
+  WithCrash = {WithCrash}
+  SplitCap = {SplitCap}
 CONSTRAINT Bound
 INVARIANTS {INVS}
 CHECK_DEADLOCK FALSE
 '''
 
 MC_DEFAULTS = dict(KEYS='{"a", "b"}', HASHIDS='{"ha", "hb"}', MaxChunk=3, Vals='{1, 2, 3}', Revs='{0, 5}',
-                   MaxOps=3, CheckVH='FALSE', Collide='FALSE', MaxRestarts=0, Mutants='{}', WithGC='FALSE', FileMax=3, BodyMaxBlk=1,
+                   MaxOps=3, CheckVH='FALSE', Collide='FALSE', MaxRestarts=0, Mutants='{}', WithGC='FALSE', FileMax=3, BodyMaxBlk=1, WithCrash='FALSE', SplitCap=2,
                    INVS='TypeOK C01_ReadMap NoFatal C02_NoLostAck')
 
 
@@ -156,6 +158,12 @@ def run(pid, tier, seed, work, log, replay=None):
         scen = [json.load(open(replay))]
     else:
         scen = G.gen_batch(seed, scenario_counts(tier), focus, pid.lower())
+        if pid in ('C03', 'C18', 'C17'):
+            tpl = G.gc_templates()          # exhaustive small grammar; the quick tier takes a seeded sample
+            if tier == 'quick':
+                rng = random.Random(seed * 7919 + 1)
+                tpl = rng.sample(tpl, 700)
+            scen += tpl
         fixed = os.path.join(V.VERIF, 'scenarios', 'fixed', pid)
         if os.path.isdir(fixed):
             for f in sorted(os.listdir(fixed)):
